@@ -77,7 +77,7 @@ def rand_cfg(rng, fill=0):
             vd.append([k if rng.random() < 0.7 else casevar(rng, k), tag])
     ph = None if rng.random() < 0.3 else [d if rng.random() < 0.7 else casevar(rng, d) for d in rng.sample(pool, rng.randint(0, 3))]
     env = None if rng.random() < 0.3 else rng.choice(BASE + ["noat.test", "A.Test", "me.test"])
-    cfg = {"me": me, "lo": lo, "vd": vd, "ph": ph, "env": env, "noise": rng.choice([0, 0, 1, 2, 3, 5])}
+    cfg = {"me": me, "lo": lo, "vd": vd, "ph": ph, "env": env, "noise": rng.choice([0, 0, 1, 2, 3, 4, 5])}
     if fill:          # large files: the lookup tables grow, chains get longer
         cfg["lo"] = (cfg["lo"] or []) + ["fill%d.test" % i for i in range(fill)]
         cfg["vd"] = (cfg["vd"] or []) + [["fill%d.test" % i, "f%d" % i] for i in range(fill)] + [[".w%d.test" % i, "w%d" % i] for i in range(fill // 2)]
